@@ -20,11 +20,11 @@ WALL = {'quick': 45, 'thorough': 1500}
 RULE = ('one trash-put per case, of one file - or, in a quarter of the cases, of 2-4 files lying on different volumes - over the lattice: home on / or on its own volume, 0-3 extra volumes, nested mount, state of '
         '.Trash (absent, sticky, non-sticky, symlink, file) and of .Trash-$uid (absent, dir, file, symlink to another volume), file on the '
         'home volume / another volume / nested volume / reached through a volume-crossing symlink, XDG_DATA_HOME set/unset/empty/through a '
-        'symlink, --trash-dir, fallback switches, uids, umasks; non-trivial = the file is not on the home-trash volume or an option/env '
+        'symlink, --trash-dir, fallback switches, uids, umasks, a file system that refuses chmod (8 %); for 10 % of the cases every kill / Ctrl-C point of the run is swept and the modes of the trash directories created so far are checked; non-trivial = the file is not on the home-trash volume or an option/env '
         'switch is involved; distinct = (home mode, file place, .Trash state, .Trash-uid state, xdg, options, chosen kind)')
 ASSUMPTIONS = ['relative XDG_DATA_HOME and unset HOME are not generated (the statement does not define them)',
                'worlds where the prescribed directory cannot be created (parent is a file) are not generated']
-PROBES = ['with-concurrent-companion', 'arguments-on-different-volumes', 'home-chosen', 'top-chosen', 'alt-chosen', 'custom-chosen', 'none-chosen', 'created-0700', 'cross-volume-symlink-path',
+PROBES = ['chmod-refused-by-the-file-system', 'crash-points-with-modes-checked', 'with-concurrent-companion', 'arguments-on-different-volumes', 'home-chosen', 'top-chosen', 'alt-chosen', 'custom-chosen', 'none-chosen', 'created-0700', 'cross-volume-symlink-path',
           'xdg-empty', 'fallback-copy', 'alt-symlink-other-volume', 'umask-not-022']
 TECHNIQUE = 'deterministic simulation of trash-put over the configuration lattice; chosen directory compared with a spec-level chooser; op-trace monitor for EXDEV/copy and stdin reads'
 LEVEL_TEXT = 'seeded exploration of mount layouts x .Trash states x env x options; decision-table check against model/chooser.py plus mode and same-volume checks'
@@ -101,7 +101,15 @@ def gen(rng):
         # another trash-put of the same user, on the same volume, at the same time
         steps.append(['f', d + '/companion-file', 'companion', 0o644])
         companion = {'argv': ['trash-put'] + [o for o in opts if o != '-v'] + ['--', d + '/companion-file'], 'env': env, 'cwd': '/', 'uid': uid}
+    import errno as _E
+    faults = []
+    if rng.random() < 0.08 and L['vols'] and not any(o == '--home-fallback' for o in opts):
+        # volumes whose file system refuses chmod (FAT-like): a directory must be BORN private, it cannot be narrowed afterwards
+        for v in L['vols']:
+            faults.append({'kind': 'cond', 'what': 'op_errno', 'op': 'chmod', 'dir': v, 'errno': _E.EPERM})
     return {
+        'faults': faults,
+        'crash_modes': companion is None and rng.random() < 0.1,
         'companion': companion,
         'sched_seed': rng.randrange(1 << 30),
         'world': {'mounts': L['mounts'], 'steps': steps},
@@ -218,6 +226,27 @@ def check(sim, case, st):
         res.append(('C07/prompted/%s' % sigctx, 'trash-put read from stdin (prompted) although neither -i nor anything else asks for it %s' % ctx))
     if any('.Trash-' in (k or '') and v[0] == 'l' for k, v in snap0.items()):
         st.probes['alt-symlink-other-volume'] += 1
+    if case.get('faults'):
+        st.probes['chmod-refused-by-the-file-system'] += 1
+    if case.get('crash_modes') and not comp and not res:
+        # "created private": at no instant - whenever the command is killed or interrupted - may a trash directory it created be
+        # more open than 0700, and a later undisturbed run must not settle for a directory left too open
+        from engines import crash as EC
+        c2 = dict(case, faults=[])
+        for k, n, before, rk, snapk in EC.sweep(sim, c2, st, max_points=40):
+            if k == 'full':
+                continue
+            wrong = []
+            for T in ML.trash_dirs_in(snapk):
+                for p in (T, T + '/files', T + '/info'):
+                    if p not in before and p in snapk and snapk[p][0] == 'd' and snapk[p][1] != 0o700:
+                        wrong.append((p, snapk[p][1]))
+            st.probes['crash-points-with-modes-checked'] += 1
+            if wrong:
+                res.append(('C07/created-mode-at-crash/%s' % ('sigint' if isinstance(k, tuple) else 'kill'),
+                            'trash-put stopped before its mutating op #%r of %d: %s exist with modes %s (umask %o, argv %r)'
+                            % (k, n, [w[0] for w in wrong], [oct(w[1]) for w in wrong], case.get('umask', 0o022), argv)))
+                break
     seen, out = set(), []
     for s, m in res:
         if s not in seen:
